@@ -61,12 +61,12 @@ CHECKS = {
 PURE_NOTE = "Trusted base: the engine source under harness/src/bin and harness/src/{util,wire}.rs. Verdict = held on the inputs/executions of this run."
 CHECKS.update({
  "C06": dict(engine="c06", cat="exploration", ref="DESIGN.md 4/C06",
-   tech="runtime monitoring with sanitizer-style oracles: hostile byte strings fed to the real server App one per frame under catch_unwind, a counting global allocator (largest / total request per message), process-death detection by the driver, overflow-check (debug-assert) and release lanes, service check through a well-behaved client",
-   text="Exhaustive over all byte strings of length <=2 (quick) / <=3 (thorough) per channel and sender, structure-aware generation beyond (inflated length fields, boundary entity bits, truncation, over-long varints, batches interleaved with legitimate traffic and connects/disconnects). A panic escaping App::update, an allocation request out of proportion, a dead worker process, a server frame that does not return within 20 s (watchdog), a legitimate event queued behind the hostile bytes in the same frame that is not handled, or a well-behaved client that stops converging are violations. Both arithmetic lanes run because overflow behaviour differs between them.",
+   tech="runtime monitoring with sanitizer-style oracles: hostile byte strings fed to the real server App one per frame under catch_unwind, a counting global allocator (largest / total request per message), a message-release monitor (Bytes::is_unique on retained clones), process-death detection by the driver, overflow-check (debug-assert) and release lanes, service check through a well-behaved client",
+   text="Exhaustive over all byte strings of length <=2 (quick) / <=3 (thorough) per channel and sender, structure-aware generation beyond (inflated length fields, boundary entity bits, truncation, over-long varints, batches interleaved with legitimate traffic and connects/disconnects). A panic escaping App::update, an allocation request out of proportion (>= 1 MiB for <= 4 KiB of input), a message the server still holds after the frame that processed it, the same on a freshly started server whose only connections are unauthorized (flooded for 20..80 frames, then joined by a well-behaved client), a dead worker process, a server frame that does not return within 20 s (watchdog), a legitimate event queued behind the hostile bytes in the same frame that is not handled, or a well-behaved client that stops converging are violations. Both arithmetic lanes run because overflow behaviour differs between them.",
    note=PURE_NOTE + " Exhaustiveness holds only for the short-input blocks; everything longer is sampled. Miri/valgrind lanes are auxiliary (DESIGN.md 3.6)."),
- "C13": dict(engine="c13", cat="exploration", ref="DESIGN.md 4/C13",
-   tech="runtime monitoring: single-App state machine over {singleplayer, listen server, client connecting/connected, dedicated server} with per-event handling counters (remote sends decoded from RepliconClient::drain_sent + local observations by in-app readers/observers)",
-   text="Random interleavings of status transitions and emissions (events/triggers, with/without targets, all send modes incl. SERVER); per event remote+local handlings must be exactly one on the path selected by the state at its processing frame, local sender must be SERVER, nothing may be put on the network without a connection, no panic.",
+ "C13": dict(engine="c13+c13b", cat="exploration", ref="DESIGN.md 4/C13",
+   tech="runtime monitoring: (a) client and server Apps on the repository's example backend over loopback TCP with connections closed from either side around emitting frames, per-event remote/local counters; (b) single-App state machine over {singleplayer, listen server, client connecting/connected, dedicated server} with per-event handling counters (remote sends decoded from RepliconClient::drain_sent + local observations by in-app readers/observers)",
+   text="Random interleavings of status transitions and emissions (events/triggers, with/without targets, all send modes incl. SERVER); per event remote+local handlings must be exactly one on the path selected by the state at its processing frame, local sender must be SERVER, nothing may be put on the network without a connection, no panic. Over the example backend: events and triggers written in the frames around a connection close (resource removed before / inside the frame, server stopped, server dropped the connection) must be seen exactly once by the remote server while the frame ends connected and exactly once locally when it ends disconnected.",
    note=PURE_NOTE),
  "C14": dict(engine="c14", cat="exploration", ref="DESIGN.md 4/C14",
    tech="runtime monitoring: generated registration sequences and all their single-step edits hashed by freshly built Apps (and by a second process), equality oracle hash-equality <=> sequence-equality; ProtocolCheck handshake outcome monitor",
